@@ -2,6 +2,10 @@
 check (yet) or outside the reach of static analysis are in NOT_APPLICABLE with the reason."""
 
 CLAIMS = {
+    "C28": {
+        "text": "Decides relational clauses of add_report_history_and_set_preferred_relay: report.preferred_relay is written only with the url of an entry of this report's relay_latency that has a windowed best latency, or with the previous preferred relay and then only if that relay was measured in this report; best_recent merges exactly the previous reports within MAX_AGE (= 300 s) and the current one; the candidate is a running minimum of best_recent.get(url); the latency the candidate is compared with is the LOWEST latency the current report holds for the previous relay (running minimum over its per-probe entries); the previous relay is restored exactly when it exists, differs from the candidate, was measured now and candidate_best > previous / 3 * 2 (truth functions extracted from the MIR, operands by exact provenance). Duration arithmetic and Instant ordering are not evaluated.",
+        "technique": "decision-tree (truth-function) extraction of accumulator updates and of the stickiness decision over slot states, exact operand provenance, who-writes of the result field, constant evaluation",
+    },
     "C23": {
         "text": "Decides relational clauses of prune_non_relay_paths: only Unusable / Inactive entries of the non-relay part of the map can enter the prune set and retain() removes exactly that set (open, unknown-status and relay paths are never removed); nothing is removed below MAX_NON_RELAY_PATHS non-relay paths; the closed paths are sorted most-recently-closed first and the kept prefix must have length min(n, MAX_INACTIVE_NON_RELAY_PATHS) for every n (index expression evaluated for n = 0..40) with at least one closed path surviving; the failed list is cut only when every path failed and then leaves exactly 30. KNOWN FINDING on the pinned tree: the split index is n - 10 (saturating), so 10 (not all-but-10) closed paths are pruned and a map of failed + <=10 closed paths is emptied. Time values and container semantics are assumed.",
         "technique": "match-arm table and exact def-chain provenance of the prune set, success-edge guards, evaluation of the index expression over all small n (finite enumeration of an integer relation), sort-key orientation",
@@ -172,7 +176,6 @@ _PENDING = "rules for this property are not implemented yet in this revision (se
 
 NOT_APPLICABLE = {
     "C16": "Arithmetic partition of a byte buffer by run-time lengths and segment sizes; needs symbolic evaluation, not code shape.",
-    "C28": "Numeric choice (best latency in a time window, 2/3 hysteresis) over report histories; value-level, not structural.",
 }
 for _i in range(1, 44):
     _p = "C%02d" % _i
